@@ -236,6 +236,22 @@ def check_case(core, v, level, root_kind, seg, chain, spellings, rec, group_path
         rec.count('rewrite_after_delete_checks')
         if er2 != er:
             rec.violation('rewrite-after-delete-lost-or-misplaced', case, {'first': er[-120:], 'second': er2[-120:]})
+            return
+        # reads through the same spellings see what was written, and writing it once more creates nothing
+        seen = len(getattr(root, names[0]))
+        if seen != 1:
+            rec.violation('read-through-the-same-spelling-does-not-see-the-written-child', case,
+                          {'spelling': names[0], 'len': seen, 'er7': er2[-100:]})
+            return
+        n_before = treeinv.count_nodes([root])
+        cur = root
+        for nm in names[:-1]:
+            cur = getattr(cur, nm)
+        setattr(cur, names[-1], text)
+        rec.count('second_write_checks')
+        if root.to_er7() != er2 or treeinv.count_nodes([root]) != n_before:
+            rec.violation('second-write-through-the-same-chain-created-another-path', case,
+                          {'first': er2[-120:], 'second': root.to_er7()[-120:]})
     except Exception as e:
         rec.violation('raised:%s' % type(e).__name__, case, {'exc': repr(e)[:200]})
 
@@ -272,6 +288,55 @@ def check_open_segment(core, v, seg, level, rec, rng):
             rec.violation('written-value-misplaced', case, {'encoded': s.to_er7()})
             return
         rec.count('open_segment_checks')
+    except Exception as e:
+        rec.violation('raised:%s' % type(e).__name__, case, {'exc': repr(e)[:200]})
+
+
+def check_z_in_message(core, v, level, rec, rng):
+    """locally defined (Z) segments reached by traversal from a message or from a group: reads write nothing, the first
+    write creates the segment once, at the end of its parent"""
+    from .. import structref
+    zname = 'Z' + rng.choice('ABIN') + rng.choice('DNP1')
+    num = rng.randint(1, 5)
+    how = rng.choice(['field', 'field-value', 'segment-value'])
+    case = {'kind': 'z-in-message', 'version': v, 'level': level, 'segment': zname, 'field': num, 'how': how}
+    rec.evaluation(('z-in-message', v, level, zname, num, how))
+    try:
+        m = core.Message('ADT_A01', version=v, validation_level=level, encoding_chars=gen.full_ec(er7ref.STD))
+        m.msh.msh_7 = '20200101'
+        m.msh.msh_9 = structref.msh9_for(v, 'ADT_A01') or 'ADT^A01'
+        m.msh.msh_10 = '1'
+        groups = [c.name for c in tables.messages(v)['ADT_A01'].children if c.kind == 'GRP']
+        targets = [m]
+        if groups:
+            targets.append(m.add_group(groups[0]))
+        for tgt in targets:
+            before = state(m)
+            for _ in range(2):
+                p = getattr(tgt, zname.lower())
+                len(p), repr(p), list(p)
+                q = getattr(p, '%s_%d' % (zname.lower(), num))
+                len(q), repr(q), q.value
+                m.to_er7()
+            rec.count('read_purity_comparisons')
+            if state(m) != before:
+                rec.violation('read-changed-state', case, {'er7': m.to_er7()[-100:]})
+                return
+            er_before = m.to_er7()
+            if how == 'field':
+                setattr(getattr(tgt, zname.lower()), '%s_%d' % (zname.lower(), num), 'zv')
+            elif how == 'field-value':
+                getattr(getattr(tgt, zname.lower()), '%s_%d' % (zname.lower(), num)).value = 'zv'
+            else:
+                getattr(tgt, zname.lower()).value = zname + '|' * num + 'zv'
+            # (an empty group contributes an empty line to the encoding: lines are compared)
+            want = [l for l in er_before.split('\r') if l] + [zname + '|' * num + 'zv']
+            rec.count('z_segment_write_checks')
+            if [l for l in m.to_er7().split('\r') if l] != want or len(tgt.children.indexes.get(zname, [])) != 1:
+                rec.violation('write-through-a-missing-z-segment-lost-or-misplaced', case,
+                              {'encoded': m.to_er7()[-80:], 'expected': want[-2:], 'under': tgt.name})
+                return
+            delattr(tgt, zname.lower())
     except Exception as e:
         rec.violation('raised:%s' % type(e).__name__, case, {'exc': repr(e)[:200]})
 
@@ -337,6 +402,10 @@ def run_shard(spec, rec):
             if i < 1:
                 rec.sample({'version': v, 'root': spec['root'], 'segment': seg, 'group_path': list(gp),
                             'spellings': spellings})
+        if spec['root'] == 'message' and 'ADT_A01' in tables.messages(v):
+            for level in (1, 2):
+                for _ in range(12):
+                    check_z_in_message(core, v, level, rec, rng)
         if spec['root'] == 'segment':
             for seg in c02.open_ended_segments(v):
                 for level in (1, 2):
@@ -351,6 +420,10 @@ def run_shard(spec, rec):
 def replay(case, rec):
     from hl7apy import core
     v = case['version']
+    if case.get('kind') == 'z-in-message':
+        for k in range(40):
+            check_z_in_message(core, v, case['level'], rec, gen.rng_for(k, 'replay'))
+        return
     if case.get('kind') == 'open-segment':
         for k in range(20):
             check_open_segment(core, v, case['segment'], case['level'], rec, gen.rng_for(k, 'replay'))
